@@ -56,6 +56,15 @@ Theorem C03_magic_calls_do_not_catch : gen_discipline_violations = 0.
 Proof. exact discipline_generated. Qed.
 Print Assumptions C03_magic_calls_do_not_catch.
 
+(* #expr / #ifexpr: each of the 34 registered operators (expr.py, between `a = addop` and `del a`) is implemented by the
+   callable the cost review pinned (vt/gen/c03_magics.py EXPR_IMPL_PINNED): in particular `^` is math.pow, which on machine
+   floats returns a float or raises at once, and never an exact integer power (whose size is multiplied by the exponent at
+   every link of a left-associative chain 9^64^64^64^64).  `math`, abs, int, round, bool are not rebound; _myround and
+   addop are pinned by the hash of their AST; `functions` is written by addop only. *)
+Theorem C03_expr_operators_pinned : gen_expr_impl_violations = 0 /\ gen_expr_operators = 34.
+Proof. exact expr_impl_generated. Qed.
+Print Assumptions C03_expr_operators_pinned.
+
 (* #titleparts never outputs more than its first argument, for all integers numseg and start. *)
 Theorem C03_output_bounded_titleparts : forall title numseg start,
   length (titleparts title numseg start) <= length title.
